@@ -969,7 +969,6 @@ class SymZ:
             c = int(o)
             if B(z3.And(self.t > -(2**53), self.t < 2**53)) and B(self.t % c == 0):
                 return SymZFloat(self // c)
-            raise Unsupported("inexact float division of a symbolic integer (LIA back end)")
         if type(o) is int and o > 0:
             return SymRat(self, o)
         raise Unsupported("true division of a symbolic int")
